@@ -7,6 +7,8 @@ import (
 	"os"
 	"path/filepath"
 	"runtime"
+	"runtime/debug"
+	"runtime/pprof"
 	"sort"
 	"strings"
 	"time"
@@ -105,6 +107,12 @@ func main() {
 	if d := os.Getenv("VERIF_DIR"); d != "" {
 		verifDir = d
 	}
+	debug.SetGCPercent(800)
+	if p := os.Getenv("GOSX_PPROF"); p != "" {
+		f, _ := os.Create(p)
+		pprof.StartCPUProfile(f)
+		defer pprof.StopCPUProfile()
+	}
 	switch os.Args[1] {
 	case "run":
 		fs := flag.NewFlagSet("run", flag.ExitOnError)
@@ -113,6 +121,8 @@ func main() {
 		params := fs.String("params", "", "k=v,k=v")
 		workers := fs.Int("workers", runtime.NumCPU(), "")
 		verbose := fs.Bool("v", false, "")
+		tmo := fs.Int("timeout", 0, "seconds")
+		maxSteps := fs.Int64("maxsteps", 0, "")
 		fs.Parse(os.Args[2:])
 		prog, err := loadProgram()
 		if err != nil {
@@ -120,6 +130,9 @@ func main() {
 			os.Exit(2)
 		}
 		job := &Job{Prop: "adhoc", Name: *harness, Harness: *harness, Setup: *setup, Params: map[string]string{}}
+		if os.Getenv("GOSX_NOPAINT") != "" {
+			job.Stubs = paintStubs
+		}
 		for _, kv := range strings.Split(*params, ",") {
 			if i := strings.Index(kv, "="); i > 0 {
 				job.Params[kv[:i]] = kv[i+1:]
@@ -127,6 +140,10 @@ func main() {
 		}
 		ex := NewExplorer(prog, *workers)
 		ex.verbose = *verbose
+		if *tmo > 0 {
+			ex.deadline = time.Now().Add(time.Duration(*tmo) * time.Second)
+		}
+		ex.maxSteps = *maxSteps
 		if os.Getenv("GOSX_SITES") != "" {
 			siteStats = map[string]int{}
 		}
@@ -161,7 +178,9 @@ func main() {
 			fmt.Println("SAMPLE:", string(b))
 		}
 	case "check":
-		os.Exit(cmdCheck(os.Args[2:]))
+		code := cmdCheck(os.Args[2:])
+		pprof.StopCPUProfile()
+		os.Exit(code)
 	case "selftest":
 		os.Exit(cmdSelftest(os.Args[2:]))
 	default:
